@@ -403,6 +403,18 @@ pub fn raster(sink: &mut Sink, seed: u64, thorough: bool) {
         let id = sink.id();
         sink.emit(&raster_event(id, "rasterprog", &qr, p));
     }
+    // growth (G06): ImageBuilder forwards the embedded-image options too: the frame is drawn (the image file itself does not
+    // exist and is skipped by the rasteriser), so the cell at the frame centre shows the frame colour
+    let qr7 = qr_of(7, seed);
+    let n7 = qr7.size as u32;
+    for k in 0..3usize {
+        for (j, extra) in [vec![], vec![Call::ImagePosition(14.5, 30.5)], vec![Call::ImageSize(9.0), Call::ImageGap(1.0), Call::ImagePosition(30.5, 14.5)], vec![Call::ImageSize(7.0)]].into_iter().enumerate() {
+            let mut p = vec![Call::Margin(2), Call::Shape(0), Call::Image("no-such-file.png".into()), Call::ImageBackgroundColor(vec![200, 30, 40, 255]), Call::ImageBackgroundShape(k), Call::FitWidth(4 * (n7 + 4))];
+            p.extend(extra);
+            let id = sink.id();
+            sink.emit(&raster_event(id, &format!("rasterimg:{k}:{j}"), &qr7, &p));
+        }
+    }
 }
 
 // ------------------------------------------------------------------ custom shape callbacks (C15: "custom shape callbacks ... see a correct map")
